@@ -61,7 +61,9 @@ def base_definitions():
         'ir': {'type': 'indirect_register', 'register': 'sp', 'bytecode': {'value': 1, 'size': 2}},
         'xi': {'type': 'indexed_register', 'register': 'a', 'bytecode': {'value': 2, 'size': 2},
                'index_operands': {'i': {'type': 'numeric', 'argument': {'size': 8, 'byte_align': True}}}},
-        'nb': {'type': 'numeric_bytecode', 'bytecode': {'size': 3, 'min': 0, 'max': 7}}}}
+        'nb': {'type': 'numeric_bytecode', 'bytecode': {'size': 3, 'min': 0, 'max': 7}},
+        'xn': {'type': 'indexed_register', 'register': 'b', 'bytecode': {'value': 3, 'size': 2},
+               'index_operands': {'ni': {'type': 'numeric_bytecode', 'bytecode': {'size': 3, 'min': -4, 'max': 3}}}}}}
     out.append(('macros', m, False))
     return out
 
@@ -181,11 +183,24 @@ def faults(isa, limit=None):
                 d = clone()
                 d['operand_sets'][sname]['operand_values'][oname]['register'] = 'nosuchreg'
                 yield f'operand {sname}.{oname}: register := undeclared', d
-            if ocfg.get('type') == 'numeric_bytecode':
-                d = clone()
-                bc = d['operand_sets'][sname]['operand_values'][oname]['bytecode']
-                bc['min'], bc['max'] = bc['max'] + 1, bc['max']
-                yield f'operand {sname}.{oname}: numeric_bytecode max < min', d
+    # inverted numeric_bytecode ranges wherever such an operand is declared: operand sets, listed combinations, index operands
+    def nbc_paths(node, path=()):
+        if isinstance(node, dict):
+            if node.get('type') == 'numeric_bytecode' and isinstance(node.get('bytecode'), dict) and 'max' in node['bytecode']:
+                yield path
+            for k, v in node.items():
+                yield from nbc_paths(v, path + (k,))
+        elif isinstance(node, list):
+            for k, v in enumerate(node):
+                yield from nbc_paths(v, path + (k,))
+    for path in list(nbc_paths(isa)):
+        d = clone()
+        node = d
+        for k in path:
+            node = node[k]
+        bc = node['bytecode']
+        bc['min'], bc['max'] = bc['max'] + 1, bc['max']
+        yield f'numeric_bytecode at {"/".join(str(k) for k in path)}: max < min', d
     bits = isa['general']['address_size']
     for zi, z in enumerate(((isa.get('predefined') or {}).get('memory_zones') or [])):
         for what, patch in (('end := 2^bits', {'end': 1 << bits}), ('start := end+1', {'start': z['end'] + 1}),
